@@ -828,9 +828,18 @@ def rule_index_removal(model):
     return r
 
 
-RULES = [rule_attr_reads, rule_item_reads, rule_underscore,
-         rule_restricted, rule_propagation, rule_guard_owner,
-         rule_index_removal]
+def _inl(rule):
+    """Run a rule on the view in which helpers that are new w.r.t. the
+    reference tree are inlined at their call sites (normalise.N2)."""
+    def run(model):
+        return rule(model.inlined_view())
+    run.__name__ = rule.__name__
+    return run
+
+
+INLINED_VIEW = False
+RULES_PLAIN = [rule_attr_reads, rule_item_reads, rule_underscore, rule_restricted, rule_propagation, rule_guard_owner, rule_index_removal]
+RULES = [_inl(r_) for r_ in RULES_PLAIN] if INLINED_VIEW else RULES_PLAIN
 EXPLANATION = (
     'Classification of every getattr-family call site with a dynamic name '
     'and of every element read of an iterated client sequence (reaching '
